@@ -630,6 +630,16 @@ func (i *PostingsIterator) nextDocNumAtOrAfter(atOrAfter uint64) (uint64, bool, 
 		return 0, false, nil
 	}
 
+	if atOrAfter > math.MaxUint32 {
+		// document numbers are 32 bits wide: no hit is at or after this target
+		// (it must not be truncated to 32 bits below); the iterator is exhausted
+		i.Actual.AdvanceIfNeeded(math.MaxUint32)
+		for i.Actual.HasNext() {
+			i.Actual.Next()
+		}
+		return 0, false, nil
+	}
+
 	if i.postings == nil || i.postings == emptyPostingsList {
 		// couldn't find anything
 		return 0, false, nil
